@@ -251,7 +251,9 @@ def _b_iter(interp, args, kwargs):
 def _b_getattr(interp, args, kwargs):
     name = args[1]
     if not isinstance(name, str):
-        raise interp.unsupported(f"getattr with non-constant name {name!r}")
+        if isinstance(name, (Unknown, SStr)):
+            raise interp.unsupported(f"getattr with non-constant name {name!r}")
+        raise interp.exc("TypeError", f"attribute name must be string, not {type(name).__name__!r}")
     if len(args) > 2:
         return interp.getattr(args[0], name, args[2])
     return interp.getattr(args[0], name)
